@@ -1,0 +1,189 @@
+//! `tokio::task` facade: `spawn`, `spawn_blocking` and `JoinHandle` go to the installed simulator,
+//! everything else is the real thing.
+
+pub use ::tokio::task::*;
+
+use std::fmt;
+use std::future::Future;
+use std::pin::Pin;
+use std::task::{Context, Poll};
+
+/// Why a simulated task did not produce a value (it was dropped by the simulator).
+pub struct JoinError {
+    real: Option<::tokio::task::JoinError>,
+}
+
+impl JoinError {
+    pub fn is_cancelled(&self) -> bool {
+        self.real.as_ref().map(|e| e.is_cancelled()).unwrap_or(true)
+    }
+
+    pub fn is_panic(&self) -> bool {
+        self.real.as_ref().map(|e| e.is_panic()).unwrap_or(false)
+    }
+}
+
+impl fmt::Debug for JoinError {
+    fn fmt(&self, f: &mut fmt::Formatter<'_>) -> fmt::Result {
+        match &self.real {
+            Some(e) => fmt::Debug::fmt(e, f),
+            None => write!(f, "JoinError::Cancelled(sim)"),
+        }
+    }
+}
+
+impl fmt::Display for JoinError {
+    fn fmt(&self, f: &mut fmt::Formatter<'_>) -> fmt::Result {
+        match &self.real {
+            Some(e) => fmt::Display::fmt(e, f),
+            None => write!(f, "simulated task was cancelled"),
+        }
+    }
+}
+
+impl std::error::Error for JoinError {}
+
+impl From<JoinError> for std::io::Error {
+    fn from(error: JoinError) -> Self {
+        std::io::Error::other(error.to_string())
+    }
+}
+
+enum Inner<T> {
+    Real(::tokio::task::JoinHandle<T>),
+    Sim(::tokio::sync::oneshot::Receiver<T>),
+    Blocking {
+        function: Option<Box<dyn FnOnce() -> T + Send>>,
+        yielded: bool,
+    },
+    Done,
+}
+
+/// Same surface as `tokio::task::JoinHandle` for what this code base uses.
+pub struct JoinHandle<T> {
+    inner: Inner<T>,
+}
+
+impl<T> Unpin for JoinHandle<T> {}
+
+impl<T> fmt::Debug for JoinHandle<T> {
+    fn fmt(&self, f: &mut fmt::Formatter<'_>) -> fmt::Result {
+        f.debug_struct("JoinHandle").finish()
+    }
+}
+
+impl<T> JoinHandle<T> {
+    pub fn abort(&self) {
+        if let Inner::Real(handle) = &self.inner {
+            handle.abort();
+        }
+    }
+
+    pub fn is_finished(&self) -> bool {
+        match &self.inner {
+            Inner::Real(handle) => handle.is_finished(),
+            Inner::Sim(_) => false,
+            Inner::Blocking { .. } => false,
+            Inner::Done => true,
+        }
+    }
+}
+
+impl<T> Future for JoinHandle<T> {
+    type Output = Result<T, JoinError>;
+
+    fn poll(mut self: Pin<&mut Self>, cx: &mut Context<'_>) -> Poll<Self::Output> {
+        let this = &mut *self;
+        match &mut this.inner {
+            Inner::Real(handle) => Pin::new(handle)
+                .poll(cx)
+                .map(|r| r.map_err(|e| JoinError { real: Some(e) })),
+            Inner::Sim(receiver) => match Pin::new(receiver).poll(cx) {
+                Poll::Ready(Ok(value)) => {
+                    this.inner = Inner::Done;
+                    Poll::Ready(Ok(value))
+                }
+                Poll::Ready(Err(_)) => {
+                    this.inner = Inner::Done;
+                    Poll::Ready(Err(JoinError { real: None }))
+                }
+                Poll::Pending => Poll::Pending,
+            },
+            Inner::Blocking { function, yielded } => {
+                if !*yielded {
+                    *yielded = true;
+                    if let Some(rt) = super::runtime() {
+                        if rt.should_yield("spawn_blocking") {
+                            cx.waker().wake_by_ref();
+                            return Poll::Pending;
+                        }
+                    }
+                }
+                let function = function.take().expect("blocking closure polled twice");
+                let value = function();
+                this.inner = Inner::Done;
+                Poll::Ready(Ok(value))
+            }
+            Inner::Done => Poll::Ready(Err(JoinError { real: None })),
+        }
+    }
+}
+
+#[track_caller]
+pub fn spawn<F>(future: F) -> JoinHandle<F::Output>
+where
+    F: Future + Send + 'static,
+    F::Output: Send + 'static,
+{
+    spawn_named("task", future)
+}
+
+#[track_caller]
+pub fn spawn_named<F>(name: &'static str, future: F) -> JoinHandle<F::Output>
+where
+    F: Future + Send + 'static,
+    F::Output: Send + 'static,
+{
+    match super::runtime() {
+        Some(rt) => {
+            let (sender, receiver) = ::tokio::sync::oneshot::channel();
+            if rt.is_dead() {
+                // A dying process spawns nothing; the handle reports cancellation.
+                drop(sender);
+            } else {
+                rt.spawn(
+                    name,
+                    Box::pin(async move {
+                        let value = future.await;
+                        let _ = sender.send(value);
+                    }),
+                );
+            }
+            JoinHandle {
+                inner: Inner::Sim(receiver),
+            }
+        }
+        None => JoinHandle {
+            inner: Inner::Real(::tokio::task::spawn(future)),
+        },
+    }
+}
+
+#[track_caller]
+pub fn spawn_blocking<F, R>(function: F) -> JoinHandle<R>
+where
+    F: FnOnce() -> R + Send + 'static,
+    R: Send + 'static,
+{
+    match super::runtime() {
+        Some(_) => JoinHandle {
+            inner: Inner::Blocking {
+                function: Some(Box::new(function)),
+                yielded: false,
+            },
+        },
+        None => JoinHandle {
+            inner: Inner::Real(::tokio::task::spawn_blocking(function)),
+        },
+    }
+}
